@@ -62,8 +62,12 @@ func execute(d *RunDesc) *RunResult {
 			res.Stats.SimNanos += op.Tick
 		}
 	}
-	b, _ := json.Marshal(d.Tasks)
-	res.Stats.DescHash = hashString(string(b))
+	if d.nOps() <= 20000 {
+		b, _ := json.Marshal(d.Tasks)
+		res.Stats.DescHash = hashString(string(b))
+	} else {
+		res.Stats.DescHash = simrt.Mix(d.Seed, uint64(d.nOps())) // huge description: not worth serialising
+	}
 	switch d.Prop {
 	case "C12":
 		runC12(d, res)
